@@ -30,8 +30,17 @@ def field_map(struct_node):
     return {f["name"]: f["e"] for f in struct_node["fields"]}
 
 
-def mentions_end(e):
-    return any(n["k"] == "MethodCall" and n["method"] == "end" for n in S.walk(e))
+_LETS = {}
+
+
+def mentions_end(e, depth=0):
+    """does the expression contain `<match>.end()`, directly or through a `let`-bound name (`let end = m.end();`)?"""
+    for n in S.walk(e):
+        if n["k"] == "MethodCall" and n["method"] == "end":
+            return True
+        if n["k"] == "Path" and depth < 3 and n["path"] in _LETS and any(mentions_end(i_, depth + 1) for i_ in _LETS[n["path"]]):
+            return True
+    return False
 
 
 def run(ctx, res):
@@ -43,6 +52,10 @@ def run(ctx, res):
     for n, line in zip(names, out):
         res.ok("MULTILINE-TOKEN", "%s %s" % (n, "can match a newline" if n in multiline else "cannot match a newline"))
     lb = S.find_fn(sh, LEX, "lex_between")
+    _LETS.clear()
+    for n in S.walk(lb["body"]):
+        if n["k"] == "Let" and n.get("init") is not None and n["pat"]["k"] == "PIdent" and not n["pat"].get("mut"):
+            _LETS.setdefault(n["pat"]["name"], []).append(n["init"])
     # from_offset bindings: let (a, b) = lp.from_offset(<expr>)
     fo = {}
     for n in S.walk(lb["body"]):
@@ -189,7 +202,7 @@ def run(ctx, res):
                 res.bad("POSITION-TRIPLE", key + " # inconsistent", "; ".join(problems), "%s:%d" % (LEX, ln))
             else:
                 res.ok("POSITION-TRIPLE", key + ": start from from_offset(%s); end %s" % (so, form))
-    res.floor("POSITION-TRIPLE", "Position literals in the lexer", n_trip, 11)
+    res.floor("POSITION-TRIPLE", "Position literals in the lexer", n_trip, 8)
 
     # ---- CHAR-BOUNDARY
     def boundary_expr(e, lits_ok):
